@@ -161,6 +161,12 @@ outputBufferPairs:
 						}
 					}
 				}
+				// messages the parser refuses (empty, too short, no header) are dropped by the input as well
+				for _, bad := range []string{"", "<13>1 short", "no syslog header at all, but long enough to be looked at"} {
+					res := p.feed([]byte(bad), chunks)
+					nrec++
+					o.Emit(map[string]any{"ev": "LRec", "host": "", "level": "", "email": false, "badtime": false, "len": len(bad), "res": res, "xdrop": true})
+				}
 				p.flush(chunks)
 				p.procCounter.UpdateMetrics()
 				m := vmetrics.Gather(p.mf)
